@@ -51,6 +51,9 @@ pub fn to_miette_report_with_formatter(
     file: &str,
     formatter: &dyn MessageFormatter,
 ) -> miette::Report {
+    // Locations are relative to the text after a leading byte order mark (the parser skips
+    // it), so the labels' byte offsets only line up with a source that has none.
+    let source = source.strip_prefix('\u{FEFF}').unwrap_or(source);
     let sanitized_source = sanitize_terminal_snippet_preserve_len(source.to_owned());
     let src = Arc::new(NamedSource::new(file, sanitized_source));
     let mut diag = build_diagnostic(err.without_snippet(), src, formatter);
